@@ -69,13 +69,22 @@ def encEntries (es : List Entry) : List Nat :=
 
 /-! ## patterns of the list model -/
 
-/-- Element patterns: `'a'` / `Name('a')`, `...`, `M(t=e)`, `MTAG('t')`. -/
+/-- Element patterns: `'a'` / `Name('a')`, `...`, `M(t=e)`, `MTAG('t')`, and two-member `MAND` / `MOR` whose members may
+be given as keywords (the member's own captures are kept next to the member tag). -/
 inductive EPat where
   | lit (a : Nat)
   | any
   | cap (t : Name) (e : EPat)
   | ref (t : Name)
+  | and2 (t1 : Option Name) (e1 : EPat) (t2 : Option Name) (e2 : EPat)
+  | or2 (t1 : Option Name) (e1 : EPat) (t2 : Option Name) (e2 : EPat)
 deriving DecidableEq, Repr, Inhabited
+
+/-- `{pat_tag: tgt}` for a keyword member, nothing for an anonymous one -/
+def capEnv (t : Option Name) (i x : Nat) : Dict :=
+  match t with
+  | some n => [(n, Val.elem i x)]
+  | none => []
 
 /-- `MQ(pat, min, max, **static)` / `MQ(tag=pat, ...)`, `.NG` variants. `mx = none` is unbounded. -/
 structure QSpec where
@@ -105,6 +114,21 @@ def matchE (ctx : Dict) : EPat → Nat → Nat → Option Dict
     match lookup ctx t with
     | some (.elem _ l) => if l == x then some [] else none -- the tagged node, used as a pattern
     | _ => none                                            -- no such tag, or not a node
+  | .and2 t1 e1 t2 e2, i, x =>                             -- `MAND._match`: `tagss.append({**m, pat_tag: tgtf})` per member
+    match matchE ctx e1 i x with
+    | none => none
+    | some m1 =>
+      let d1 := m1 ++ capEnv t1 i x
+      match matchE (ctx ++ d1) e2 i x with
+      | none => none
+      | some m2 => some (d1 ++ (m2 ++ capEnv t2 i x))
+  | .or2 t1 e1 t2 e2, i, x =>                              -- `MOR._match`: first member that matches, `{**m, pat_tag: tgt}`
+    match matchE ctx e1 i x with
+    | some m1 => some (m1 ++ capEnv t1 i x)
+    | none =>
+      match matchE ctx e2 i x with
+      | some m2 => some (m2 ++ capEnv t2 i x)
+      | none => none
 
 /-! ## Part L: the list matcher as written -/
 
